@@ -21,6 +21,13 @@ RULE = ("finite product {writer function or CLI output option} x {target exists 
 ASSUMPTIONS = ["'replaced by the new output' is judged by loading the file with the matching reader / magic bytes",
                "builtins.input is the only confirmation channel"]
 SENTINEL = b"SENTINEL-do-not-touch-\x00\x01\n"
+_CUR = {"content": SENTINEL}
+
+
+def _S():
+    """bytes the pre-existing targets of the current case hold (a sentinel, or nothing at all: an empty file exists too)"""
+    return _CUR["content"]
+
 ANSWERS = ["y", "n", "", "yes", "Y", " y"]
 
 
@@ -56,7 +63,7 @@ def _plot_collection():
 
 def _loadable(kind, path):
     data = open(path, "rb").read()
-    if data == SENTINEL:
+    if data == _S():
         return False
     try:
         if kind == "tum":
@@ -103,11 +110,11 @@ def _judge(case, targets, prompts, kinds, before_listing, d, label):
         if t in case["_pre"]:
             data = open(t, "rb").read() if os.path.exists(t) else None
             if not confirmed:
-                if data != SENTINEL:
+                if data != _S():
                     raise Mismatch("%s: existing file %s was changed although the answer was %r (not 'y')" % (label, os.path.basename(t), ans),
                                    observed="overwritten", site=label, answer=ans)
             else:
-                if data == SENTINEL or not _loadable(k, t):
+                if data == _S() or not _loadable(k, t):
                     raise Mismatch("%s: existing file %s was not replaced although the answer was 'y'" % (label, os.path.basename(t)),
                                    observed="not_replaced", site=label)
     if not confirmed:
@@ -123,7 +130,7 @@ def _prepare(d, targets, exists):
         make = exists == "all" or (exists == "first" and i == 0) or (exists == "last" and i == len(targets) - 1 and len(targets) > 1)
         if make:
             with open(t, "wb") as f:
-                f.write(SENTINEL)
+                f.write(_S())
             pre.add(t)
     return pre
 
@@ -294,7 +301,7 @@ def _same_stem_case(case, d, ind, P, P2, Q, T, nw):
     target = os.path.join(d, "traj.tum")
     pre_existing = case["exists"] != "none"
     if pre_existing:
-        open(target, "wb").write(SENTINEL)
+        open(target, "wb").write(_S())
     out = cli.run("traj", ["tum", os.path.join(ind, "a", "traj.txt"), os.path.join(ind, "b", "traj.txt"), "--save_as_tum", "--silent"] + nw,
                   answers=[case["answer"]] * 6, cwd=d)
     label = "evo_traj:save_as_tum_same_stem"
@@ -326,7 +333,7 @@ def _same_stem_case(case, d, ind, P, P2, Q, T, nw):
             raise Mismatch("%s: confirmed, but the last export is not in place" % label, observed="not_replaced", site=label)
     else:
         if pre_existing:
-            if data != SENTINEL:
+            if data != _S():
                 raise Mismatch("%s: existing file changed although the answer was %r" % (label, case["answer"]), observed="overwritten", site=label, answer=case["answer"])
         elif data is None or not is_traj(data, 1):
             raise Mismatch("%s: the export of the first trajectory was overwritten by the second without confirmation (answer %r)" % (label, case["answer"]),
@@ -336,6 +343,7 @@ def _same_stem_case(case, d, ind, P, P2, Q, T, nw):
 
 def sub_combo(case):
     case = dict(case)
+    _CUR["content"] = b"" if case.get("content") == "empty" else SENTINEL
     if "writer" in case:
         return run_writer(case)
     case["site"] = tuple(case["site"])
@@ -366,6 +374,9 @@ def combos(tier):
                     if (not confirm or exists == "none") and ans not in ("y", "n"):
                         continue
                     out.append({"site": list(site), "exists": exists, "confirm": confirm, "answer": ans})
+    # existing targets that are empty files (touch, a crashed earlier run): the decisive combinations once more
+    out += [dict(c, content="empty") for c in out if c["exists"] in ("first", "all") and c["confirm"] and c["answer"] in ("n", "y", "")
+            and c.get("ptype", "str") == "str"]
     if tier == "quick":
         heavy = lambda c: ("site" in c and tuple(c["site"]) in PLOT_SITES) or c.get("writer", "").startswith("plot") or c.get("writer") == "serialize"
         light = [c for c in out if not heavy(c)]
